@@ -1239,6 +1239,8 @@ def check_candidate_call(ctx: Ctx):
                 if name == target.qual:
                     calls.append((list(args), dict(kwargs), node))
                     return []
+                if name in ("tuple", "list", "numpy.asarray", "numpy.array", "sorted") and len(args) == 1 and isinstance(args[0], Sym) and args[0].name in ("REF_LABELS", "PRED_LABELS") and not kwargs:
+                    return args[0]  # the same labels as another kind of sequence
                 return super().external_call(name, args, kwargs, node)
 
         params = [p.name for p in f.call_params]
